@@ -190,7 +190,14 @@ func (p *Program) racSource(key string, tier int, capN int64, seed int64, lits m
 			reqs = append(reqs, racClause{fmt.Sprintf("requires(%s/%d)", ikey, i), c.Text, true})
 		}
 		for i, c := range icon.Ensures {
-			enss = append(enss, racClause{fmt.Sprintf("ensures(%s/%d)", ikey, i), c.Text, true})
+			if clauseFor(c, currentProperty) {
+				enss = append(enss, racClause{fmt.Sprintf("ensures(%s/%d)", ikey, i), c.Text, true})
+			}
+		}
+		for i, c := range icon.EnsuresB {
+			if clauseFor(c, currentProperty) {
+				enss = append(enss, racClause{fmt.Sprintf("ensures_bounded(%s/%d)", ikey, i), c.Text, true})
+			}
 		}
 	}
 	if con != nil {
@@ -198,12 +205,20 @@ func (p *Program) racSource(key string, tier int, capN int64, seed int64, lits m
 			reqs = append(reqs, racClause{fmt.Sprintf("requires(own/%d)", i), c.Text, false})
 		}
 		for i, c := range con.Ensures {
-			enss = append(enss, racClause{fmt.Sprintf("ensures(own/%d)", i), c.Text, false})
+			if clauseFor(c, currentProperty) {
+				enss = append(enss, racClause{fmt.Sprintf("ensures(own/%d)", i), c.Text, false})
+			}
+		}
+		for i, c := range con.EnsuresB {
+			if clauseFor(c, currentProperty) {
+				enss = append(enss, racClause{fmt.Sprintf("ensures_bounded(own/%d)", i), c.Text, false})
+			}
 		}
 	}
 	var b bytes.Buffer
 	w := func(format string, a ...interface{}) { fmt.Fprintf(&b, format, a...) }
-	w("//go:build verif\n\npackage %s\n\nimport (\n\t\"encoding/json\"\n\t\"fmt\"\n\t\"testing\"\n)\n\n", p.Pkg.Types.Name())
+	w("//go:build verif\n\npackage %s\n\nimport (\n\t\"encoding/json\"\n\t\"fmt\"\n\t\"os\"\n\t\"testing\"\n)\n\n", p.Pkg.Types.Name())
+	w("func verifMaxFail() int64 {\n\tif os.Getenv(\"VERIF_RAC_MAXFAIL\") != \"\" {\n\t\treturn 100000\n\t}\n\treturn 200\n}\n\n")
 	w("type verifRes struct {\n\tpre bool\n\tfail string\n\tinputs map[string]string\n\tlits map[string]string\n}\n\n")
 	// case function
 	w("func verifCase(")
@@ -315,7 +330,7 @@ func (p *Program) racSource(key string, tier int, capN int64, seed int64, lits m
 		w("%s", racClone(prm.Type, fmt.Sprintf("g%d[i%d]", i, i)))
 	}
 	w(")\n\t\tran++\n\t\tif r.pre {\n\t\t\tpre++\n\t\t\tif shown < 3 && (pre%%97 == 1) {\n\t\t\t\tshown++\n\t\t\t\tj, _ := json.Marshal(r.inputs)\n\t\t\t\tfmt.Printf(\"VERIF-RAC-SAMPLE %%s\\n\", j)\n\t\t\t}\n\t\t}\n")
-	w("\t\tif r.fail != \"\" {\n\t\t\tfails++\n\t\t\tif fails <= 20 {\n\t\t\t\tj, _ := json.Marshal(map[string]interface{}{\"inputs\": r.inputs, \"lits\": r.lits, \"what\": r.fail})\n\t\t\t\tfmt.Printf(\"VERIF-RAC-FAIL %%s\\n\", j)\n\t\t\t}\n\t\t}\n\t}\n")
+	w("\t\tif r.fail != \"\" {\n\t\t\tfails++\n\t\t\tif fails <= verifMaxFail() {\n\t\t\t\tj, _ := json.Marshal(map[string]interface{}{\"inputs\": r.inputs, \"lits\": r.lits, \"what\": r.fail})\n\t\t\t\tfmt.Printf(\"VERIF-RAC-FAIL %%s\\n\", j)\n\t\t\t}\n\t\t}\n\t}\n")
 	w("\tfmt.Printf(\"VERIF-RAC-SUMMARY cases=%%d pre=%%d fails=%%d total=%%d\\n\", ran, pre, fails, total)\n}\n")
 	return b.String(), strings.Join(universe, "; "), nil
 }
